@@ -376,6 +376,8 @@ def run(ctx):
         ctx.construct(rc, extra='in_tx completion check'),
         'the completion check is not registered as a transactional '
         'post-commit operation calling check_and_complete', ctx.loc(rc))
+    from mstatic.rules import shared
+    shared.affected_tasks_cover_completed(ctx, r5)
     ca = prog.func(TH + '._check_affected_tasks')
     site = [s for s in cg.posttx_sites if s[0] == ca.qname]
     r5.check(bool(site) and site[0][2] is True,
